@@ -192,7 +192,46 @@ func synthCorpus(r *rng, ndocs int) []corpusDoc {
 			text = mk(1 + r.intn(120))
 		}
 		cat := []string{"License", "Header", "Supplement"}[r.intn(3)]
-		docs = append(docs, corpusDoc{cat, fmt.Sprintf("Syn-%d", i), fmt.Sprintf("v%d.txt", r.intn(3)), []byte(text)})
+		variant := fmt.Sprintf("v%d.txt", r.intn(3))
+		if r.chance(1, 7) {
+			variant = ""
+		}
+		docs = append(docs, corpusDoc{cat, fmt.Sprintf("Syn-%d", i), variant, []byte(text)})
+	}
+	if r.chance(1, 2) {
+		// documents named after the inducedPhrases keys of scoreDiffs, containing the phrases of every
+		// key that is a prefix of the name, several times, next to each other and apart
+		keys := map[string][]string{"AGPL": {"affero"}, "Apache": {"apache"}, "BSD": {"bsd"}, "BSD-3-Clause-Attribution": {"acknowledgment", "bsd"},
+			"LGPL-2.0": {"library"}, "X11": {"x consortium"}, "PHP": {"php"}, "SGI-B": {"silicon graphics"},
+			"GPL-2.0-with-font-exception": {"font exception"}, "bzip2": {"seward"}}
+		var names []string
+		for k := range keys {
+			names = append(names, k)
+		}
+		sort.Strings(names)
+		name := names[r.intn(len(names))]
+		if r.chance(1, 3) {
+			name = "BSD-3-Clause-Attribution" // the one name matched by two keys
+		}
+		ph := keys[name]
+		var ws []string
+		for j := 0; j < 50+r.intn(40); j++ {
+			ws = append(ws, vocab[r.intn(len(vocab))])
+			if r.chance(1, 9) {
+				ws = append(ws, ph...)
+			}
+			if r.chance(1, 12) {
+				ws = append(ws, ph[r.intn(len(ph))])
+			}
+		}
+		docs = append(docs, corpusDoc{"License", name + []string{"", "-x", "-1.0"}[r.intn(3)], "p.txt", []byte(strings.Join(ws, " "))})
+	}
+	if r.chance(1, 3) {
+		// nested triple: A small; B = S + own words; C = A + S (a fuzzy superset of A overlapping B)
+		a, sh, own := mk(6+r.intn(10)), mk(25+r.intn(30)), mk(40+r.intn(40))
+		docs = append(docs, corpusDoc{"License", "Nest-A", "a.txt", []byte(a)},
+			corpusDoc{"License", "Nest-B", "b.txt", []byte(sh + " " + own)},
+			corpusDoc{"License", "Nest-C", "c.txt", []byte(a + " " + sh)})
 	}
 	return docs
 }
@@ -212,6 +251,46 @@ func oovBlock(r *rng, nwords, nlines int) string {
 		}
 	}
 	return sb.String()
+}
+
+// evenlySub: substitute every k-th word (confidence near 1 - 1/k), the last word included or not
+func evenlySub(r *rng, text []byte, k int, lastToo bool) []byte {
+	ws := strings.Fields(string(text))
+	for i := k - 1; i < len(ws); i += k {
+		ws[i] = oovWords[r.intn(len(oovWords))]
+	}
+	if lastToo && len(ws) > 0 {
+		ws[len(ws)-1] = oovWords[0]
+	}
+	return []byte(strings.Join(ws, " "))
+}
+
+var phraseStripNum = 4
+
+// phraseStrip: delete occurrences of the words that scoreDiffs treats specially
+// (inducedPhrases, lesser/library, version numbers) from the input
+func phraseStrip(r *rng, text []byte) []byte {
+	special := map[string]bool{"affero": true, "atmel": true, "apache": true, "bsd": true, "acknowledgment": true, "seward": true,
+		"library": true, "lesser": true, "imagemagick": true, "php": true, "sunpro": true, "x": true, "consortium": true,
+		"silicon": true, "graphics": true, "sun": true, "standards": true, "exception": true, "version": true, "gnu": true}
+	lines := strings.Split(string(text), "\n")
+	for li, l := range lines {
+		ws := strings.Fields(l)
+		var out []string
+		for _, w := range ws {
+			lw := strings.ToLower(strings.Trim(w, ".,;:()\"'"))
+			isNum := len(lw) > 0 && lw[0] >= '0' && lw[0] <= '9'
+			if (special[lw] || isNum) && r.chance(phraseStripNum, 8) {
+				if r.chance(1, 3) {
+					out = append(out, r.pick([]string{"3.0", "1.1", "lesser", "library", "bsd acknowledgment", "x"}))
+				}
+				continue
+			}
+			out = append(out, w)
+		}
+		lines[li] = strings.Join(out, " ")
+	}
+	return []byte(strings.Join(lines, "\n"))
 }
 
 // editWords: random word deletions/substitutions/insertions on the text's lines.
